@@ -80,3 +80,9 @@ partial('C13', 'Proved (kernel), pixel data being arbitrary bit patterns: every 
         'YUV->RGB on any constructed image is total (yuvToRgb_total); gamma<->linear on any float data, any transfer/primaries, any build is total (rgbToLinear_total, linearToRgb_total, from C18.exp2_total); XYB/HSL stages are total maps. '
         'NOT proved: finite inputs in [0,1]^3 give finite outputs (oracle only); usize overflow behaviour of overflow-checked builds is not modelled (sizes are Nat) - the checked build is exercised by correspondence and oracle.',
         'Lean 4 theorems from loop invariants and exp2 totality; correspondence + oracle under optimised and checked builds')
+
+proof('C01', 'Machine-checked for EVERY code triple (no enumeration of triples): C01.api_decode - Rgb::try_from(&Yuv) on any accepted image (any size/stride/padding/subsampling, any primaries/transfer tags) with a standard matrix, depth 8..16, '
+      'both FMA modes, returns pixel (x,y) within 3e-6 per component of the exact H.273 decode of Y(x,y), U(x>>ss_x,y>>ss_y), V(...). Ingredients: (N, native_decide, re-evaluated against the constants regenerated from the source) the model computed '
+      'inverse matrices are entry-wise within 2.5e-7 of the exact rational H.273 matrices and EVERY code of every depth/range normalises within 2e-7 of the H.273 formula; (K) soundness of the exact-rational checker, the standard-model rounding '
+      'lemmas for binary32 (round_val, mul/add/fma) and the 3-term dot-product error analysis over the reals; decodeSpec_is_h273 shows the exact matrix is R=Y+2(1-Kr)Cr, B=Y+2(1-Kb)Cb, G=(Y-Kr R-Kb B)/Kg. The N parts trust the Lean compiler in addition to the kernel.',
+      'Lean 4: rounding-error analysis over the reals (kernel) + exhaustive evaluated checks of constants and per-code normalisation (native_decide); correspondence ties the model to the code')
